@@ -271,7 +271,7 @@ SpinRel(w, l) ==
            /\ pc.k \in {"jn2f", "tj2", "dt3", "dt4", "cn1", "tc1"}
            /\ th[pc.x].lk = l
            /\ th' = SetPc(me, [pc EXCEPT !.k = CASE pc.k = "jn2f" -> "jn3"
-                                                  [] pc.k = "tj2" -> (IF pc.z = 1 THEN "jn3" ELSE "tj9")
+                                                  [] pc.k = "tj2" -> (IF pc.z = 1 THEN "jn3" ELSE IF pc.v = 0 THEN "tj9" ELSE IF pc.v = 1 THEN "tn1" ELSE "tn3")
                                                   [] pc.k = "dt3" -> "dt5"     \* finished: free the record
                                                   [] pc.k = "dt4" -> "dt9"
                                                   [] pc.k = "cn1" -> "cn9"
@@ -581,14 +581,14 @@ UYieldCall(w, tag, opt) ==
   /\ UNCHANGED <<cur, got, cb, runq, lk, stk, freeD, freeS, flS, nD, nS, nL, anw, tg, bad, sv>>
 
 \* entry of the yield routine: called by the user (yu0) or internally by once (onw1, option
-\* half_half), nanosleep (ns2, half_half), timedlock / timedjoin (tl3 / tj3, local_first)
-YieldCallers == {"yu0", "onw1", "ns2", "tl3", "tj3"}
+\* half_half), nanosleep (ns2, half_half), timedlock / timedjoin (tl3 / tn3, local_first)
+YieldCallers == {"yu0", "onw1", "ns2", "tl3", "tn3"}
 YieldOptOf(pc) == CASE pc.k = "yu0" -> pc.x [] pc.k \in {"onw1", "ns2"} -> 0 [] OTHER -> 2
 YieldCont(pc) == CASE pc.k = "yu0" -> P("yu9", 0, 0, 0)
                    [] pc.k = "onw1" -> [pc EXCEPT !.k = "onw"]
                    [] pc.k = "ns2" -> [pc EXCEPT !.k = "ns1"]
                    [] pc.k = "tl3" -> [pc EXCEPT !.k = "tl1"]
-                   [] OTHER -> [pc EXCEPT !.k = "tj1"]
+                   [] OTHER -> [pc EXCEPT !.k = "tn1"]
 YieldBeg(w, t, opt) ==
   /\ Runs(w, t) /\ th[t].pc.k \in YieldCallers /\ opt = YieldOptOf(th[t].pc)
   /\ th' = CallPc(t, P("yd0", opt, 0, 0), YieldCont(th[t].pc))
@@ -699,7 +699,12 @@ MxLd(w, m, s, kind) ==
   /\ LET pc == APc(w) IN
      /\ pc.x = m
      /\ \/ kind = 0 /\ pc.k = "ml0" /\ AgentSet(w, [pc EXCEPT !.k = "ml1", !.y = s])
-        \/ kind = 1 /\ pc.k = "mt0" /\ AgentSet(w, [pc EXCEPT !.k = "mt1", !.y = s])
+        \/ /\ kind = 1 /\ pc.k = "mt0" /\ ~InCb(w) /\ cb' = cb
+           /\ IF s % 2 = 1 /\ th[cur[w]].rs # <<>> /\ Head(th[cur[w]].rs).k = "tl"
+              THEN \* trylock inside timedlock found the mutex held: back to the timed loop
+                   LET f == Head(th[cur[w]].rs) IN
+                   th' = [th EXCEPT ![cur[w]].pc = [f EXCEPT !.k = IF f.v = 0 THEN "tl1" ELSE "tl3"], ![cur[w]].rs = Tail(@)]
+              ELSE th' = SetPc(cur[w], [pc EXCEPT !.k = "mt1", !.y = s])
         \/ kind = 2 /\ pc.k = "mu0" /\ s % 2 = 1 /\ AgentSet(w, [pc EXCEPT !.k = "mu1", !.y = s])
   /\ UNCHANGED <<cur, got, runq, ledger, tg, bad, sv>>
 
@@ -716,7 +721,9 @@ MxCas(w, m, exp, new, ok) ==
            /\ th' = SetPc(cur[w], [pc EXCEPT !.k = IF ok = 1 THEN "ml2" ELSE "ml0"])
            /\ cb' = cb
         \/ /\ pc.k = "mt1" /\ exp % 2 = 0 /\ new = exp + 1 /\ ~InCb(w)        \* trylock
-           /\ th' = SetPc(cur[w], [pc EXCEPT !.k = IF ok = 1 THEN "mt9" ELSE "mt0"])
+           /\ IF ok = 1 /\ th[cur[w]].rs # <<>> /\ Head(th[cur[w]].rs).k = "tl"
+              THEN th' = [th EXCEPT ![cur[w]].pc = P("tl9", m, 0, 0), ![cur[w]].rs = Tail(@)]     \* timedlock succeeded
+              ELSE th' = SetPc(cur[w], [pc EXCEPT !.k = IF ok = 1 THEN "mt9" ELSE "mt0"])
            /\ cb' = cb
         \/ /\ pc.k = "mu1" /\ exp > 1 /\ new = exp - 2                         \* unlock, somebody (will be) queued
            /\ AgentSet(w, [pc EXCEPT !.k = IF ok = 1 THEN "mu2" ELSE "mu0"])
@@ -1105,6 +1112,67 @@ UTestCancelCall(w, tag) ==
 UTestCancelRet(w, tag) ==
   /\ \E t \in D : At(w, t, "tc2") /\ th[t].tag = tag /\ ~tg[tag].creq /\ th' = SetPc(t, User)
   /\ UNCHANGED <<cur, got, cb, runq, ledger, tg, bad, sv>>
+
+\* ============================================ sleeping and timed waits (C20)
+\* time stamps are (seconds, nanoseconds); Gt is the library's strict comparison
+TsGt(s1, n1, s2, n2) == s1 > s2 \/ (s1 = s2 /\ n1 > n2)
+NS == 1000000000
+\* a clock read made by the program itself (to compute an absolute deadline)
+UClock(w, s, n) ==
+  /\ \E t \in D : At(w, t, "user")
+  /\ UNCHANGED corevars
+\* ---- nanosleep / usleep / sleep
+UNanosleepCall(w, tag, sec, nsec) ==
+  /\ \E t \in D : At(w, t, "user") /\ th[t].tag = tag
+        /\ th' = SetPc(t, IF sec < 0 \/ nsec < 0 \/ nsec > NS - 1 THEN P("ns9", 22, 0, 0) ELSE P("ns0", sec, nsec, 0))
+  /\ UNCHANGED <<cur, got, cb, runq, ledger, tg, bad, sv>>
+\* clock reads of the library: (ns0) compute the deadline, (ns1/tl1/tn1) compare with it
+Clock(w, s, n) ==
+  /\ \E t \in D : Runs(w, t) /\
+     LET pc == th[t].pc IN
+     \/ /\ pc.k = "ns0"
+        /\ th' = SetPc(t, P("ns1", s + pc.x + (n + pc.y) \div NS, (n + pc.y) % NS, 0))
+     \/ /\ pc.k = "ns1"                              \* return no earlier than the requested duration
+        /\ th' = SetPc(t, IF TsGt(s, n, pc.x, pc.y) THEN P("ns9", 0, 0, 0) ELSE [pc EXCEPT !.k = "ns2"])
+     \/ /\ pc.k = "tl1"                              \* timedlock: past the deadline => timeout, otherwise try again
+        /\ th' = IF TsGt(s, n, pc.y, pc.z) THEN SetPc(t, P("tl9", pc.x, 110, 0))
+                 ELSE CallPc(t, P("mt0", pc.x, 0, 0), [pc EXCEPT !.k = "tl", !.v = 1])
+     \/ /\ pc.k = "tn1" /\ th[t].rs # <<>> /\ Head(th[t].rs).k = "tn"     \* timedjoin (deadline in the frame below)
+        /\ th' = IF TsGt(s, n, Head(th[t].rs).y, Head(th[t].rs).z)
+                 THEN [th EXCEPT ![t].pc = P("tn9", pc.x, 16, 0), ![t].rs = Tail(@)]
+                 ELSE SetPc(t, P5("tj0", pc.x, pc.y, 0, 2))
+  /\ UNCHANGED <<cur, got, cb, runq, ledger, tg, bad, sv>>
+UNanosleepRet(w, tag, rc) ==
+  /\ \E t \in D : At(w, t, "ns9") /\ th[t].tag = tag /\ rc = th[t].pc.x /\ th' = SetPc(t, User)
+  /\ UNCHANGED <<cur, got, cb, runq, ledger, tg, bad, sv>>
+\* ---- timedlock(m, absolute deadline)
+UTimedLockCall(w, tag, m, dsec, dnsec) ==
+  /\ \E t \in D : At(w, t, "user") /\ th[t].tag = tag
+        /\ th' = CallPc(t, P("mt0", m, 0, 0), P5("tl", m, dsec, dnsec, 0))
+  /\ UNCHANGED <<cur, got, cb, runq, ledger, tg, bad, sv>>
+UTimedLockRet(w, tag, m, rc) ==
+  /\ \E t \in D : At(w, t, "tl9") /\ th[t].tag = tag /\ th[t].pc.x = m /\ rc = th[t].pc.y
+        /\ th' = SetPc(t, User)
+        /\ gh' = IF rc = 0 THEN GhSet("mown", m, t) ELSE gh
+  /\ bad' = IF rc = 0 /\ gh.mown[m] # 0 THEN Fail("C04: mutex acquired (timedlock) while another thread holds it") ELSE bad
+  /\ UNCHANGED <<cur, got, cb, runq, ledger, tg, mx, sq, ob>>
+\* ---- timedjoin(target, absolute deadline): a tryjoin, then clock / tryjoin / yield until success or timeout
+UTimedJoinCall(w, tag, ctag, dsec, dnsec) ==
+  /\ \E t \in D : At(w, t, "user") /\ th[t].tag = tag
+        /\ tg[ctag].hs = "live" /\ tg[ctag].d # 0
+        /\ th' = [th EXCEPT ![t].pc = P5("tj0", tg[ctag].d, ctag, 0, 1), ![t].rs = <<P5("tn", tg[ctag].d, dsec, dnsec, 0)>> \o @]
+  /\ UNCHANGED <<cur, got, cb, runq, ledger, tg, bad, sv>>
+UTimedJoinRet(w, tag, ctag, rc, v, cell) ==
+  /\ \E t \in D : Runs(w, t) /\ th[t].tag = tag
+        /\ \/ /\ th[t].pc.k = "tn9" /\ rc = 16 /\ tg[ctag].d = th[t].pc.x /\ tg' = tg /\ bad' = bad
+              /\ th' = SetPc(t, User)
+           \/ /\ th[t].pc.k = "jn5" /\ rc = 0 /\ th[t].pc.y = ctag /\ th[t].pc.z = v
+              /\ th[t].rs # <<>> /\ Head(th[t].rs).k = "tn"
+              /\ tg' = [tg EXCEPT ![ctag].hs = "reaped"]
+              /\ bad' = IF ~tg[ctag].ended \/ v # tg[ctag].endv THEN Fail("C13: timedjoin succeeded with a wrong value")
+                        ELSE IF cell # tg[ctag].cell THEN Fail("C01: a write of the joined thread is not visible to the joiner") ELSE bad
+              /\ th' = [th EXCEPT ![t].pc = User, ![t].rs = Tail(@)]
+  /\ UNCHANGED <<cur, got, cb, runq, lk, stk, freeD, freeS, flS, nD, nS, nL, anw, sv>>
 
 \* ============================================================== properties
 OK == bad = "ok"
